@@ -13,7 +13,8 @@ switch chain with fall-through (shared joins) / early return / break / continue 
 empty forwarding blocks on random edges / critical edges (if without else, loop
 exits).  SSA values are created by on-the-fly SSA construction over mutable
 "variables": every join of differing values gets a phi, loop headers get a phi
-per live variable (incl. unchanged ones -> self-referencing phis).
+per live variable (incl. unchanged ones -> self-referencing phis); `swap` statements
+(a, b = b, a / rotations / copies) emit no instruction but make header phis read each other.
 
 Decoration: allocas (entry block) and globals with initial bytes, typed
 loads/stores at constant and computed in-bounds offsets (all integer types, ptr,
